@@ -164,9 +164,12 @@ func (g *gzipResponseWriter) Finish() error {
 		return g.writePlain(body)
 	}
 
-	// Already encoded by the backend: never encode twice
-	if g.Header().Get("Content-Encoding") != "" {
-		return g.writePlain(body)
+	// Already encoded by the backend: never encode twice. The coding may be named on any of
+	// several Content-Encoding lines (Get only looks at the first, which may be empty)
+	for _, encoding := range g.Header().Values("Content-Encoding") {
+		if strings.TrimSpace(encoding) != "" {
+			return g.writePlain(body)
+		}
 	}
 
 	clHeader := g.Header().Get("Content-Length")
